@@ -24,21 +24,54 @@ def cps(s: str) -> str:
     return ",".join(str(ord(c)) for c in s) if s else "-"
 
 
-def impl_clean(s: str) -> str:
+class NoTermination(BaseException):
+    """name_cleaner used more than the CPU-time bound on one string: termination is part of the property"""
+
+
+_SLOW = [0]
+
+
+def bounded_clean(s: str) -> str:
+    """workbook.name_cleaner(s) under a CPU-time bound of its own (ITIMER_VIRTUAL / SIGVTALRM: independent of the run's SIGALRM
+    watchdog).  The unchanged cleaner needs microseconds; 5 s of CPU on one short string is reported as non-termination with that
+    string as the replay, instead of waiting for the whole run's watchdog."""
+    import signal
+
     from stingray.workbook import name_cleaner
 
+    def on_vt(signum, frame):  # noqa: ARG001
+        raise NoTermination()
+
+    old = signal.signal(signal.SIGVTALRM, on_vt)
+    signal.setitimer(signal.ITIMER_VIRTUAL, 5.0 if _SLOW[0] < 3 else 0.3)
     try:
-        return cps(name_cleaner(s))
+        return name_cleaner(s)
+    except NoTermination:
+        _SLOW[0] += 1
+        raise
+    finally:
+        signal.setitimer(signal.ITIMER_VIRTUAL, 0)
+        signal.signal(signal.SIGVTALRM, old)
+
+
+def impl_clean(s: str) -> str:
+    try:
+        return cps(bounded_clean(s))
+    except NoTermination:
+        return "NoTermination"
     except BaseException as ex:  # noqa: BLE001
         return err_enum(ex)
 
 
 def oracle(ck: Check, s: str) -> None:
-    from stingray.workbook import name_cleaner
+    name_cleaner = bounded_clean
 
     ck.oracle_evaluations += 1
     try:
         r = name_cleaner(s)
+    except NoTermination:
+        ck.fail("name_cleaner-does-not-terminate", f"name_cleaner({s!r}) has not returned after 5 s of CPU time", {"name": s})
+        return
     except BaseException as ex:  # noqa: BLE001
         ck.fail("name_cleaner", f"name_cleaner({s!r}) raises {type(ex).__name__}", {"name": s})
         return
